@@ -208,9 +208,29 @@ func minLen(b *ssa.BasicBlock, x ssa.Value) int64 {
 			best = n
 		}
 	}
+	// len(x), or len(x) ± C (signed int arithmetic on a length does not wrap): the constant moves to the other side
+	lenOff := func(v ssa.Value) (int64, bool) {
+		v = stripConv(v)
+		if a, ok := lenArg(v); ok && sameColl(a, x) {
+			return 0, true
+		}
+		if bo, ok := v.(*ssa.BinOp); ok && (bo.Op == token.SUB || bo.Op == token.ADD) {
+			if a, ok := lenArg(stripConv(bo.X)); ok && sameColl(a, x) {
+				if bt, ok := bo.Type().Underlying().(*types.Basic); ok && bt.Kind() == types.Int {
+					if k, ok := constInt(bo.Y); ok {
+						if bo.Op == token.SUB {
+							return -k, true
+						}
+						return k, true
+					}
+				}
+			}
+		}
+		return 0, false
+	}
 	isLen := func(v ssa.Value) bool {
-		a, ok := lenArg(stripConv(v))
-		return ok && sameColl(a, x)
+		_, ok := lenOff(v)
+		return ok
 	}
 	for _, cf := range dominatingConds(b) {
 		op, other, ok := relFact(cf, isLen)
@@ -218,6 +238,18 @@ func minLen(b *ssa.BasicBlock, x ssa.Value) int64 {
 			continue
 		}
 		k, isK := constInt(other)
+		if bo, isB := cf.Cond.(*ssa.BinOp); isB {
+			off, okx := lenOff(bo.X)
+			if !okx {
+				off, _ = lenOff(bo.Y)
+			}
+			if off != 0 {
+				if !isK {
+					continue
+				}
+				k -= off
+			}
+		}
 		var lb int64
 		switch op {
 		case token.NEQ:
